@@ -10,12 +10,18 @@ def _nontrivial(ln):
     return ";" in script or not script.startswith("-/")
 
 
-def _extra(lines, verdicts):
-    cov = {"pages_hist": {}, "cases_with_faults": 0, "cases_with_nonretried_failure": 0,
-           "cases_ctor_error": 0, "cases_with_empty_page": 0, "cases_connection_reset": 0,
-           "cases_ignore_write_error": 0, "cases_plan_exhausted_or_nonrows": 0,
-           "drop_cases": 0, "max_rows": 0, "requests_seen": 0}
-    for ln in lines:
+def _later_pages(script):
+    return script.split(";")[1:]
+
+
+def _counters(lines, verdicts):
+    c = {"pages_hist": {}, "cases_with_faults": 0, "cases_with_nonretried_failure": 0,
+         "cases_ctor_error": 0, "cases_with_empty_page": 0, "cases_connection_reset": 0,
+         "cases_ignore_write_error": 0, "cases_nonrows_reply": 0, "cases_plan_exhausted": 0,
+         "drop_cases": 0, "connection_pager_cases": 0, "max_rows": 0, "requests_seen": 0,
+         "unprepared_on_later_page": 0, "slow_consumer_error_on_page_ge2_seen_by_caller": 0,
+         "timeout_cases": 0, "early_timeout_accepted": 0, "not_run": 0}
+    for ln, v in zip(lines, verdicts):
         parts = ln.split("|")
         case = parts[0].split()
         if len(case) < 7:
@@ -23,30 +29,80 @@ def _extra(lines, verdicts):
         script = case[6]
         pages = script.split(";")
         b = str(min(len(pages), 12))
-        cov["pages_hist"][b] = cov["pages_hist"].get(b, 0) + 1
-        if any(not p.startswith("-/") for p in pages):
-            cov["cases_with_faults"] += 1
-        if "d/" in script or "d," in script or "T" in script.replace("/R", ""):
-            cov["cases_with_nonretried_failure"] += 1
+        c["pages_hist"][b] = c["pages_hist"].get(b, 0) + 1
+        faults = [p.split("/")[0] for p in pages]
+        if any(f != "-" for f in faults):
+            c["cases_with_faults"] += 1
+        if any(t.endswith("d") and t.startswith("E") or t == "T" for f in faults for t in f.split(",")):
+            c["cases_with_nonretried_failure"] += 1
         if "R-:" in script:
-            cov["cases_with_empty_page"] += 1
+            c["cases_with_empty_page"] += 1
         if "E10004" in script:
-            cov["cases_connection_reset"] += 1
-        if "i/" in script or "i," in script:
-            cov["cases_ignore_write_error"] += 1
+            c["cases_connection_reset"] += 1
+        if any(t.endswith("i") and t.startswith("E") for f in faults for t in f.split(",")):
+            c["cases_ignore_write_error"] += 1
         if "/V" in script or "/X" in script:
-            cov["cases_plan_exhausted_or_nonrows"] += 1
+            c["cases_nonrows_reply"] += 1
+        nodes = int(case[4], 16)
+        if case[1] == "s" and any(sum(1 for t in f.split(",") if t.startswith("E") and t.endswith("n")) >= nodes
+                                  for f in faults):
+            c["cases_plan_exhausted"] += 1
         if case[3].startswith("drop"):
-            cov["drop_cases"] += 1
-        if len(parts) > 1:
-            obs = parts[1].split()
-            if obs and obs[0].startswith("f"):
-                cov["cases_ctor_error"] += 1
-            if obs:
-                cov["max_rows"] = max(cov["max_rows"], obs[0].count("r"))
-            if len(obs) > 1 and obs[1] != "none":
-                cov["requests_seen"] += obs[1].count(",") + 1
-    return cov
+            c["drop_cases"] += 1
+        if case[1] == "c":
+            c["connection_pager_cases"] += 1
+        if case[0] == "T":
+            c["timeout_cases"] += 1
+        if v and v.startswith("ok early-timeout"):
+            c["early_timeout_accepted"] += 1
+        if any("U" in f.split(",") for f in faults[1:]):
+            c["unprepared_on_later_page"] += 1
+        obs = parts[1].split() if len(parts) > 1 else []
+        if obs and obs[0] == "error":
+            c["not_run"] += 1
+        if obs and obs[0].startswith("f"):
+            c["cases_ctor_error"] += 1
+        if obs:
+            c["max_rows"] = max(c["max_rows"], obs[0].count("r"))
+        if len(obs) > 1 and obs[1] != "none":
+            c["requests_seen"] += obs[1].count(",") + 1
+        if case[3].startswith("slow") and obs and any(i.startswith("e") for i in obs[0].split(",")) \
+                and any(t.endswith("d") for f in faults[2:] for t in f.split(",")):
+            c["slow_consumer_error_on_page_ge2_seen_by_caller"] += 1
+    return c
+
+
+def _extra(lines, verdicts):
+    return _counters(lines, verdicts)
+
+
+# what a run must really have exercised (per 443 generated cases; scaled for bigger runs);
+# a replay (a handful of lines) is exempt
+_FLOORS = {"drop_cases": 40, "connection_pager_cases": 40, "cases_with_nonretried_failure": 40,
+           "cases_ctor_error": 10, "cases_with_empty_page": 150, "cases_ignore_write_error": 2,
+           "cases_nonrows_reply": 5, "cases_plan_exhausted": 3, "unprepared_on_later_page": 12,
+           "slow_consumer_error_on_page_ge2_seen_by_caller": 10, "timeout_cases": 4,
+           "cases_connection_reset": 2, "requests_seen": 1500}
+
+
+def _post(lines, verdicts):
+    out = []
+    if len(lines) < 300:
+        return out
+    c = _counters(lines, verdicts)
+    scale = max(1, len(lines) // 1500)
+    for k, floor in _FLOORS.items():
+        need = floor * (scale if k not in ("timeout_cases",) else 1)
+        if c[k] < need:
+            out.append(("diff", f"coverage-floor {k}", f"diff coverage floor not met: {k}={c[k]} < {need}"))
+    # cases that did not run (environment trouble) are tolerated up to a small cap
+    cap = max(2, len(lines) // 200)
+    if c["not_run"] > cap:
+        out.append(("diff", "not-run", f"diff {c['not_run']} cases did not run (cap {cap})"))
+    # the early-timeout tolerance may only be used by the few T cases
+    if c["early_timeout_accepted"] > c["timeout_cases"]:
+        out.append(("diff", "early-timeout", "diff early-timeout tolerance used outside T cases"))
+    return out
 
 
 SPEC = {
@@ -54,6 +110,8 @@ SPEC = {
     "coq_targets": ["Props/C07.vo", "Extract/ExC07.vo"],
     "bin": "c07",
     "sizes": {"quick": 400, "thorough": 20000},
+    "min_cases": {"quick": 460, "thorough": 19000},
+    "post": _post,
     "search_n": 4000,
     "runner_timeout": 2400,
     "rule": ("e2e: the real pagers against mocknode -- Session::query_iter (api q), Session::execute_iter (api e; E = cached "
@@ -64,7 +122,9 @@ SPEC = {
              "300 bytes, repeated), per-page faults (ERROR frames whose retry decision same/next/dont/ignore is taken by a "
              "scripted retry policy or by DefaultRetryPolicy idempotent / non-idempotent, delayed replies, connection "
              "reset, client-side timeout, plan exhaustion, Void / non-RESULT replies), 1..4 nodes; consumer = full read (F), "
-             "slow (S), every Pending poll cancelled (J), early drop after n items (D); timeout cases (T). "
+             "slow (S; incl. 16/80 cases 'slow consumer x error on a page >= 2'), every Pending poll cancelled (J), early drop "
+             "after n items (D); 16/80 cases with the prepared statement evicted on a later page (U: UNPREPARED, transparent "
+             "re-prepare, re-sent EXECUTE); timeout cases (T). "
              "non-trivial = at least two pages or one fault; distinct = distinct case lines"),
     "nontrivial": _nontrivial,
     "extra_coverage": _extra,
@@ -74,7 +134,8 @@ SPEC = {
         "served before it",
         "harness ScriptedPolicy (RetryPolicy whose decision is carried in the scripted error message) and the table of "
         "DefaultRetryPolicy decisions used by the generator (the policy itself is C06's subject)",
-        "spec_stream / spec_error_stream / spec_state / spec_requests are the property text transcribed",
+        "expected (strict) / spec_state / spec_error_stream are the property text transcribed; they are anchored by "
+        "pinned Examples on accepting and rejecting observations",
         "hook scylla::client::verif_pager::execute_iter_on_new_connection (/repo commit bee67f4, pass-through)",
     ],
     "assumptions": [
